@@ -84,6 +84,12 @@ func (s Step) String() string {
 type Script struct {
 	FwdRefs bool   `json:"fwdrefs"`
 	Steps   []Step `json:"steps"`
+	// Prelude: before the steps, this many short-lived sessions come and go one after the
+	// other on the same server (each negotiates SINGLE_PRIMARY/PRESERVE and closes its
+	// stream, every PreludeBad-th one - if set - ends by repeating its parameters instead):
+	// a long-lived server has seen many sessions, which must leave nothing behind.
+	Prelude    int `json:"prelude,omitempty"`
+	PreludeBad int `json:"preludebad,omitempty"`
 }
 
 // Checks selects the oracle clauses a property asserts.
@@ -295,6 +301,37 @@ func Run(sc Script, c Checks) (*ev.Verdict, *Stats) {
 			}
 		}
 	}()
+	for i := 0; i < sc.Prelude; i++ {
+		x := w.s.Open()
+		x.Send(drive.StdParams(false))
+		if rs, ended, hg := x.WaitOneOrEnd(); hg != nil || ended || len(rs) != 1 {
+			l2.HangFinding(v, c.P, hg)
+			if hg == nil {
+				w.fail("prelude", "short-lived session %d of %d: parameters not accepted: ended=%v (%v) %v", i+1, sc.Prelude, ended, x.Err(), rs)
+			}
+			return v, st
+		}
+		if sc.PreludeBad > 0 && (i+1)%sc.PreludeBad == 0 {
+			x.Send(drive.StdParams(false))
+			if _, ended, hg := x.WaitOneOrEnd(); hg != nil || !ended {
+				l2.HangFinding(v, c.P, hg)
+				if hg == nil {
+					w.fail("prelude", "short-lived session %d of %d: repeated parameters did not end the RPC", i+1, sc.Prelude)
+				}
+				return v, st
+			}
+		} else if hg := x.Close(); hg != nil {
+			l2.HangFinding(v, c.P, hg)
+			return v, st
+		}
+		if n := w.s.S.VerifSessions(); n != 0 {
+			w.fail("footprint", "after short-lived session %d of %d the server keeps state for %d sessions, none is open", i+1, sc.Prelude, n)
+			return v, st
+		}
+	}
+	if sc.Prelude > 0 {
+		v.Class("many-short-lived-sessions-first")
+	}
 	var steps []Step
 	for _, stp := range sc.Steps {
 		n := stp.Rep
